@@ -26,10 +26,11 @@ theorem proj_push (b : Nat) (s : St) (e : Entry) :
   simp only [proj, push_log, List.filterMap_append, List.filterMap_cons, List.filterMap_nil]
   cases syncKind b e <;> simp
 
-/-! ### frame: a block whose step is in progress is not touched by anybody else -/
+/-! ### frame: a block whose step is in progress (-1, -2), or whose steps are completed (2), is not touched
+by anybody else: `init_sblock` acts on `init_steps_completed` 0 and 1 only -/
 
 def Keep (b : Nat) (s t : St) : Prop :=
-  s.steps b < 0 → t.steps b = s.steps b ∧ proj b t.log = proj b s.log
+  (s.steps b ≠ 0 ∧ s.steps b ≠ 1) → t.steps b = s.steps b ∧ proj b t.log = proj b s.log
 
 theorem Keep.rfl' (b : Nat) (s : St) : Keep b s s := fun _ => ⟨rfl, rfl⟩
 
@@ -160,8 +161,8 @@ theorem initBody_frame (c : Cfg) (rec : Call → St → St) (hr : FrameSpec rec)
     intro hneg
     have e : initBody c rec x full s = s := by
       unfold initBody
-      have h0 : ¬ s.steps x = 0 := by omega
-      have h1 : ¬ s.steps x = 1 := by omega
+      have h0 : ¬ s.steps x = 0 := hneg.1
+      have h1 : ¬ s.steps x = 1 := hneg.2
       simp [h0, h1]
     rw [e]; exact ⟨rfl, rfl⟩
   · unfold initBody
